@@ -178,6 +178,7 @@ func Generate(r *rand.Rand, o Opts) *Project {
 			if pk.IsMain && fi == 0 {
 				f.Name = "main.go"
 				f.MainMethod = r.Intn(4) == 0
+				f.OneLineMain = r.Intn(5) == 0
 			}
 			if fi == 0 && !pk.IsMain && o.Asm && r.Intn(100) < 40 {
 				f.Asm = true
